@@ -48,6 +48,16 @@ def c10(ctx):
     ctx.trace_validate(trace, "escape-drive")
 
 
+def c04(ctx):
+    cfgs, maxtok = tier(ctx, ("{1, 2, 3, 4, 5, 6, 7}", 3), ("{1, 2, 3, 4, 5, 6, 7}", 4))
+    ctx.tlc_replay("MCFormat", "Format.cfg", ["format-replay", "-prop", "C04"], consts=dict(MaxTok=maxtok, ArgConfigs=cfgs))
+    ctx.harness(["fmtdiff-drive", "-n", str(tier(ctx, 150000, 3000000))])
+
+
+def c14(ctx):
+    ctx.tlc_replay("MCFwd", "Fwd.cfg", ["fwd-replay"], consts=dict(Verbs=tier(ctx, "FewVerbs", "AllVerbs")))
+
+
 def c01(ctx):
     buffer_model(ctx)
     buffer_traces(ctx)
@@ -69,6 +79,24 @@ def c13(ctx):
 
 
 PROPS = {
+    "C04": dict(run=c04, exhaustive=False, rule=(
+        "(1) TLC enumerates every format string of at most MaxTok tokens over {% # 0 + - space 1 * . [ ] v d Z e-acute a} for "
+        "7 operand configurations and checks the parser invariants; each format is run through redact.Sprintf and fmt.Sprintf "
+        "with recording operands and both outputs are compared with the rendering of the model's item list (three parsers are "
+        "one) and with each other; (2) random formats (flags x width x precision x index x 27 verbs x literals) and a "
+        "systematic verb x flag grid over an 86-value fmt-compatible universe through Sprintf/Sprint/Fprintf/Fprint, judged by "
+        "the statement itself; distinct = distinct (route, format, output) triples"), assumptions=[
+        "exclusions of the property text: %w, '0' together with '-', redact-specific types",
+        "operand strings are valid UTF-8; test Formatters write whole UTF-8 sequences and use Width()/Precision() only when ok",
+        "F7 (known finding): format literal ending in a truncated UTF-8 sequence gets the '?' guard"]),
+    "C14": dict(run=c14, exhaustive=True, rule=(
+        "complete enumeration by TLC of 32 flag subsets x 8 width options (absent,0,1,7,12,1000,*6,*-4) x 7 precision options "
+        "(absent,'.',0,1,5,*3,*-1) x verbs (quick: 7, thorough: all 49 ASCII letters except T p w + 3 multi-byte); the model "
+        "checks parse -> observe -> MakeFormat -> parse round trip; each directive is replayed with probe Formatters under "
+        "real fmt and real redact (Formatter and SafeFormatter), and Safe(x)/Unsafe(x)/a forwarding formatter are compared "
+        "with x under fmt for 19 operand kinds"), assumptions=[
+        "fmt 1.23 reports Flag('0') differently from the fork when '-' is also present; that combination is not compared "
+        "with the model under fmt (still round-trip checked under fmt itself)"]),
     "C07": dict(run=c07, exhaustive=True, rule=(
         "TLC enumerates every string that is a concatenation of at most MaxTok tokens from {start marker, end marker, "
         "cross, LF, 'a', E2, 80, B9, BA} and checks the projection invariants; every such string is given to the real "
